@@ -56,7 +56,7 @@ func ruleEncoders(c *Ctx) {
 			total++
 			name, pos := funcName(fn), c.P.pos(fn.Pos())
 			n := 0
-			lvl, fin := []string{}, []string{}
+			lvl, fin, whole := []string{}, []string{}, []string{}
 			sim := c.P.Simulate(fn, SimConfig{}, func(pr *PathResult) {
 				n++
 				where := "path [" + condString(pr.Conds) + "]"
@@ -100,6 +100,20 @@ func ruleEncoders(c *Ctx) {
 					fin = append(fin, "the writer is never closed on a successful path: the stream lacks its trailer and cannot be decoded, on "+where)
 					return
 				}
+				// the whole input, once: the writer is fed the function's input parameter as it stands
+				writes := 0
+				for i, e := range pr.Events {
+					if i > ctorAt && (e.Kind == "call" || e.Kind == "invoke") && strings.HasSuffix(e.CalleeName(), ").Write") && len(e.Args) > 1 && e.Args[0].strip().Key() == W.Key() {
+						writes++
+						a := stripConvTerm(e.Args[1].strip())
+						if !(a.Op == "sym" && strings.HasPrefix(a.Name, "p:")) {
+							whole = append(whole, fmt.Sprintf("the writer is fed %s, not the input as it stands (pieces cut by computed offsets can skip or repeat bytes; the stream still decodes without error), on %s", prettyTerm(a), where))
+						}
+					}
+				}
+				if writes != 1 {
+					whole = append(whole, fmt.Sprintf("the input is written %d times on a successful path (once is the whole input), on %s", writes, where))
+				}
 				for i, e := range pr.Events {
 					if i > ctorAt && e.Kind == "call" && e.Callee != nil && strings.HasPrefix(e.Callee.String(), "(*bytes.Buffer).") && len(e.Args) > 0 && e.Args[0].strip().Key() == buf.Key() {
 						m := e.Callee.Name()
@@ -116,6 +130,7 @@ func ruleEncoders(c *Ctx) {
 				continue
 			}
 			c.check(len(lvl) == 0, "level-range", name, pos, fmt.Sprintf("%d paths: for every int level the value reaching %s lies in [%d,%d]", n, cd.ctor, cd.lo, cd.hi), strings.Join(uniq(lvl), " || "), n)
+			c.check(len(whole) == 0, "encoder-whole-input", name, pos, fmt.Sprintf("%d paths: on every successful path the compressing writer receives the input parameter itself, exactly once", n), strings.Join(uniq(whole), " || "), n)
 			c.check(len(fin) == 0, "close-before-read", name, pos, fmt.Sprintf("%d paths: the writer is closed on every successful path and the buffer is not read before that", n), strings.Join(uniq(fin), " || "), n)
 		}
 	}
